@@ -201,8 +201,40 @@ pub fn scenario(g: &mut G, ctx: &RunCtx) -> RunReport {
             sim.add_host("proxy1.test", vec![proxy_ip]);
             let ps2 = ps.clone();
             let u2 = url_s.clone();
-            let out = sim.run(move || {
-                let _ = attohttpc::get(&u2).proxy_settings(ps2).send();
+            // (no draw) the settings replace other settings that were there before - the same proxies, a
+            // no-proxy list of the same length that lacks the last entry and repeats the first: what counts is
+            // the list that was set last
+            let decoy: Option<attohttpc::ProxySettings> = if entries.len() >= 2 && hs.len() % 2 == 0 {
+                let mut d = attohttpc::ProxySettings::builder();
+                if has_http {
+                    d = d.http_proxy(Url::parse(HTTP_PROXY).unwrap());
+                }
+                if has_https {
+                    d = d.https_proxy(Url::parse(HTTPS_PROXY).unwrap());
+                }
+                for e in entries[..entries.len() - 1].iter().chain(std::iter::once(&entries[0])) {
+                    d = d.add_no_proxy_host(e);
+                }
+                g.probe("proxy-settings-replace-earlier-ones");
+                Some(d.build())
+            } else {
+                None
+            };
+            let on_request = hs.len() % 4 == 0;
+            let out = sim.run(move || match decoy {
+                None => {
+                    let _ = attohttpc::get(&u2).proxy_settings(ps2).send();
+                }
+                Some(d) => {
+                    let mut session = attohttpc::Session::new();
+                    session.proxy_settings(d);
+                    if on_request {
+                        let _ = session.get(&u2).proxy_settings(ps2).send();
+                    } else {
+                        session.proxy_settings(ps2);
+                        let _ = session.get(&u2).send();
+                    }
+                }
             });
             stats.absorb(&out.history);
             if let Some(c) = out.history.connects.first() {
